@@ -399,10 +399,26 @@ func (db *DB) Merge() error {
 		}
 
 		if len(pendingMergeEntries) == 0 && int64(pendingMergeFId) == db.MaxFileID {
-			// nothing was rewritten, so this file is still the active segment:
-			// later commits are appended to it and it must not be unlinked
-			f.rwManager.Close()
-			continue
+			// nothing was rewritten, so this file is still the active segment and holds
+			// only dead records. Later commits must not go to an unlinked file, and its
+			// removal records that refer to positions (pops, rank ranges) must not outlive
+			// the records of the older files just dropped: start a fresh active segment
+			// and drop this one like any other fully dead file.
+			dataFile, err := NewDataFile(db.getDataPath(db.MaxFileID+1), db.opt.SegmentSize, db.opt.RWMode)
+			if err != nil {
+				db.isMerging = false
+				f.rwManager.Close()
+				return err
+			}
+			if err := db.ActiveFile.rwManager.Close(); err != nil {
+				dataFile.rwManager.Close()
+				db.isMerging = false
+				f.rwManager.Close()
+				return err
+			}
+			db.ActiveFile = dataFile
+			db.MaxFileID++
+			db.ActiveFile.fileID = db.MaxFileID
 		}
 
 		if err := vfs("remove", db.getDataPath(int64(pendingMergeFId)), 0, nil); err != nil {
